@@ -18,6 +18,8 @@ use crate::config::Config;
 mod common;
 pub mod config;
 mod workers;
+#[cfg(aquatic_verif)]
+pub use workers::swarm::verif_storage;
 
 pub const APP_NAME: &str = "aquatic_http: HTTP BitTorrent tracker";
 pub const APP_VERSION: &str = env!("CARGO_PKG_VERSION");
